@@ -134,8 +134,38 @@ def c18(tier, seed):
                      "interleaving signatures")
 
 
+def c19(tier, seed):
+    steps = [
+        Step("fam_atomdiff", "fib-asan", 150000, 6000000),
+        Step("fam_atomdiff", "thr-asan", 100000, 4000000),
+    ]
+    rule = ("cases = (cell, index); a seq/* case applies 30 random operations (operands drawn from boundaries and random "
+            "values, random memory orders) to yaclib_std::atomic<T> and std::atomic<T> in lock-step and compares return "
+            "value, expected (CAS) and stored value after every operation; exhaustive/<T> case idx covers start value "
+            "idx%256 x all 256 operands x every single integral operation + both CAS forms (the 8-bit single-operation "
+            "space is complete once the cell ran >=256 consecutive indices, which both tiers do); spurious/* checks the "
+            "injected-failure contract at frequencies 1, 0 and 2. distinct = distinct (cell, generated sequence); every "
+            "case is non-trivial.")
+    t0 = time.time()
+    res = driver.RunResult()
+    for s in steps:
+        n = s.quick if tier == "quick" else s.thorough
+        driver.run_family(res, "C19", s.family, s.variant, n, seed, tier)
+        if res.harness_error:
+            break
+    ex = {}
+    for c in res.cells:
+        if c["cell"].startswith("exhaustive/"):
+            ex[c["engine"] + ":" + c["cell"]] = {"indices_run": c["cases"], "complete_8bit_single_op_space": c["cases"] >= 256}
+    return driver.finish("C19", tier, seed, "exploration", res, rule,
+                         ["std::atomic<T> of libstdc++ is the reference", "one thread per atomic object (the property is about computed values)",
+                          "UBSan is part of the oracle: a trap inside the replacement is a divergence"],
+                         min_distinct=1000, extra_cov={"exhaustive_subspaces": ex}, t_start=t0)
+
+
 PLANS = {
     "C01": c01,
+    "C19": c19,
     "C06": c06,
     "C11": c11,
     "C16": c16,
